@@ -229,9 +229,10 @@ class AceGroup(AceBase, Group):
         type_ = h.init_type(type=type_, platform=self.platform)
         if type_ == "standard":  # refuse before any item is converted (conversion drops fields)
             for item in self._items:
-                if isinstance(item, Ace) and item.type == "extended" and item.srcaddr.addrgroup:
-                    addrgroup = item.srcaddr.addrgroup
-                    raise ValueError(f"mutually exclusive: type={type_!r}, {addrgroup=}")
+                for ace in item.items if isinstance(item, AceGroup) else [item]:
+                    if isinstance(ace, Ace) and ace.type == "extended" and ace.srcaddr.addrgroup:
+                        addrgroup = ace.srcaddr.addrgroup
+                        raise ValueError(f"mutually exclusive: type={type_!r}, {addrgroup=}")
         for item in self._items:
             item.type = type_
         self._type = type_
